@@ -151,6 +151,7 @@ BREAKING = [
 
 BENIGN = [
     {"id": "B-unparse-roundtrip-whole-tree", "transform": "unparse_all"},
+    {"id": "B-rename-all-locals", "transform": "rename_locals", "suffix": "_r"},
     {"id": "B-helper-commuted", "edits": [E(INFRA, "return (pointer - int(offset)) % size", "return (-int(offset) + pointer) % size")]},
     {"id": "B-push-temp", "edits": [E(INFRA, "        self.write(obs, offset=0, inplace=inplace)\n        self.incr(1)", "        zero = 0\n        self.write(obs, offset=0, inplace=inplace)\n        _ = self.incr(1)")]},
     {"id": "B-lif-extract-temp", "edits": [E("neural/functional/neuron_dynamics.py", "    return rest_v + (voltages - rest_v - extvoltage) * decay + extvoltage", "    relaxed = (voltages - rest_v - extvoltage) * decay\n    return extvoltage + rest_v + relaxed")]},
